@@ -117,6 +117,10 @@ type Model struct {
 	Squeezed  int
 	Squeezing bool
 	DS        byte
+	// ResetFrom is the canonical class the object was in when it was last
+	// Reset ("" = never): part of the state key, because a Reset that leaves
+	// something stale behind makes the continuation depend on it.
+	ResetFrom string
 }
 
 // System describes one object type under search.
@@ -142,6 +146,7 @@ type System struct {
 	DepthMerged int
 	DepthTree   int
 	NoSwap      bool // single-object search (no Swap operation)
+	example     string
 	// MaxSqueeze > 0 bounds the total output taken with Read from one object
 	// (fixed-output hashes: nothing is specified beyond the digest).
 	MaxSqueeze int
@@ -180,14 +185,21 @@ func (s *System) Alphabet() []string {
 	return a
 }
 
-func (s *System) modelKey(m *Model) string {
-	if m == nil {
-		return "-"
-	}
+func (s *System) cursorKey(m *Model) string {
 	if m.Squeezing {
 		return fmt.Sprintf("s%d.%v.%d", m.Squeezed%s.Rate, m.Squeezed >= s.Rate, m.DS)
 	}
 	return fmt.Sprintf("a%s.%d", s.AbsKey(m.Absorbed), m.DS)
+}
+
+func (s *System) modelKey(m *Model) string {
+	if m == nil {
+		return "-"
+	}
+	if m.ResetFrom != "" {
+		return s.cursorKey(m) + "<" + m.ResetFrom
+	}
+	return s.cursorKey(m)
 }
 
 type failure struct {
@@ -283,6 +295,7 @@ func (e *exec) step(op Op, last bool) {
 		e.obj[0], e.obj[1] = e.obj[1], e.obj[0]
 		e.m[0], e.m[1] = e.m[1], e.m[0]
 	case KReset:
+		m.ResetFrom = sys.cursorKey(m)
 		o.Reset()
 		e.nReal++
 		m.Absorbed, m.Squeezed, m.Squeezing = 0, 0, false
@@ -443,6 +456,36 @@ func (s *System) report(r *verifmc.Run, hist []Op, o outcome) {
 	}
 }
 
+// collect is report through a Collector (parallel phases): idx orders the findings.
+func (s *System) collect(c *Collector, idx int, hist []Op, o outcome) {
+	for k, f := range o.fails {
+		c.Add(idx, k, fmt.Sprintf("C15|%s|%s|%s", s.Name, kindName(f.kind), f.class), s.Name+"#"+HistString(hist),
+			fmt.Sprintf("%s after history [%s]: %s", s.Name, HistString(hist), f.msg),
+			map[string]interface{}{"system": s.Name, "history": HistString(hist)})
+	}
+}
+
+// SearchAll runs Search for every system concurrently (each search is itself
+// parallel per BFS level, but levels are small at the start) and records one
+// sample per system in the given order.
+func SearchAll(r *verifmc.Run, systems []*System, msg []byte) {
+	type res struct{ st, tr int }
+	out := make([]res, len(systems))
+	var wg sync.WaitGroup
+	for i := range systems {
+		wg.Add(1)
+		go func(i int) {
+			defer wg.Done()
+			out[i].st, out[i].tr = systems[i].Search(r, msg)
+		}(i)
+	}
+	wg.Wait()
+	for i, s := range systems {
+		r.Sample(map[string]interface{}{"system": s.Name, "states": out[i].st, "transitions": out[i].tr,
+			"example_history": s.example})
+	}
+}
+
 // Search runs the merged BFS to DepthMerged and the full history tree to
 // DepthTree. It returns (states, transitions).
 func (s *System) Search(r *verifmc.Run, msg []byte) (int, int) {
@@ -519,8 +562,8 @@ func (s *System) Search(r *verifmc.Run, msg []byte) (int, int) {
 				r.State(1)
 				r.Distinct(s.Name, o.key)
 				next = append(next, node{h, o.m})
-				if states%97 == 5 {
-					r.Sample(map[string]string{"system": s.Name, "history": HistString(h), "state": o.key})
+				if states == 200 || (states < 200 && len(h) >= 3 && s.example == "") {
+					s.example = HistString(h) + " -> " + o.key
 				}
 			}
 		}
@@ -534,7 +577,8 @@ func (s *System) Search(r *verifmc.Run, msg []byte) (int, int) {
 		local[i] = map[string]int{}
 	}
 	// visit executes one history; it returns the outcome and whether to descend.
-	visit := func(w int, h []Op) (outcome, bool) {
+	var coll Collector
+	visit := func(w, idx int, h []Op) (outcome, bool) {
 		o := s.run(msg, h)
 		if !o.ok {
 			return o, false
@@ -545,7 +589,7 @@ func (s *System) Search(r *verifmc.Run, msg []byte) (int, int) {
 		}
 		local[w]["real_operations_executed"] += o.nReal
 		if len(o.fails) > 0 {
-			s.report(r, h, o)
+			s.collect(&coll, idx, h, o)
 			local[w]["diverged"]++
 			return o, false
 		}
@@ -554,8 +598,8 @@ func (s *System) Search(r *verifmc.Run, msg []byte) (int, int) {
 	extend := func(h []Op, op Op) []Op {
 		return append(append(make([]Op, 0, len(h)+1), h...), op)
 	}
-	var rec func(w int, h []Op, m [2]*Model)
-	rec = func(w int, h []Op, m [2]*Model) {
+	var rec func(w, idx int, h []Op, m [2]*Model)
+	rec = func(w, idx int, h []Op, m [2]*Model) {
 		if len(h) >= s.DepthTree || r.Expired() {
 			return
 		}
@@ -564,8 +608,8 @@ func (s *System) Search(r *verifmc.Run, msg []byte) (int, int) {
 				continue
 			}
 			nh := extend(h, op)
-			if o, down := visit(w, nh); down {
-				rec(w, nh, o.m)
+			if o, down := visit(w, idx, nh); down {
+				rec(w, idx, nh, o.m)
 			}
 		}
 	}
@@ -577,7 +621,7 @@ func (s *System) Search(r *verifmc.Run, msg []byte) (int, int) {
 				continue
 			}
 			h := []Op{a}
-			if o, down := visit(0, h); down {
+			if o, down := visit(0, -1, h); down {
 				level1 = append(level1, node{h, o.m})
 			}
 		}
@@ -595,10 +639,11 @@ func (s *System) Search(r *verifmc.Run, msg []byte) (int, int) {
 	parallel(len(jobs2), func(w, i int) {
 		j := jobs2[i]
 		h := extend(level1[j.parent].hist, j.op)
-		if o, down := visit(w+1, h); down {
-			rec(w+1, h, o.m)
+		if o, down := visit(w+1, i, h); down {
+			rec(w+1, i, h, o.m)
 		}
 	})
+	coll.Flush(r)
 	flush(local)
 	transitions += int(treeN.Load())
 	r.Transition(transitions)
